@@ -91,7 +91,7 @@ def run(tier):
                     f.components.insert(0, L.gen_plain_comp(r))
                 L.rec_to_binary(rec, f, 5, key)                        # payload region = Enc(key, pad(content)) (byte-exact)
                 text = L.rec_write(rec, f, key, False, wd)
-                L.rec_read(rec, text, key, True, False, wd, auth=L.proj_file(f))
+                L.rec_read(rec, text, key, True, False, wd, auth=rec.last_written)
                 needles = []
                 nd = needle_of(blob)
                 if nd:
@@ -130,14 +130,14 @@ def run(tier):
                     comp.blob = bytes(r.randrange(1, 256) for _ in range(len(comp.blob)))
                 L.rec_to_binary(rec, f, 5, key)
                 text = L.rec_write(rec, f, key, False, wd)
-                L.rec_read(rec, text, key, True, False, wd, auth=L.proj_file(f))
+                L.rec_read(rec, text, key, True, False, wd, auth=rec.last_written)
             # and the object read back from the first file, edited and written again
             try:
                 g = L.Bf3File.read_file(io.StringIO(text1), True, key)
                 g.comments["x"] = "y"
                 L.rec_to_binary(rec, g, 5, key)
                 t2 = L.rec_write(rec, g, key, False, wd)
-                L.rec_read(rec, t2, key, True, False, wd, auth=L.proj_file(g))
+                L.rec_read(rec, t2, key, True, False, wd, auth=rec.last_written)
             except Exception:                              # noqa: BLE001 -- a failing read is judged by the read events above
                 pass
         # components produced by the real set_config
@@ -146,7 +146,7 @@ def run(tier):
             key = L.gen_key(r)
             L.rec_to_binary(rec, f, 5, key)
             text = L.rec_write(rec, f, key, False, wd)
-            L.rec_read(rec, text, key, True, False, wd, auth=L.proj_file(f))
+            L.rec_read(rec, text, key, True, False, wd, auth=rec.last_written)
             nds = [{"name": "configuration-plaintext", "bytes": B(v)} for v in cfg.values() if needle_of(v) == v]
             if nds:
                 rec.add({"op": "c06.scan", "text": L.chars(text), "needles": nds})
